@@ -1,3 +1,4 @@
+import Gsp.Model.PathObj
 import Gsp.Model.Ctx
 import Gsp.Lemmas.CtxAgree
 /-! C11 — schema-side, document-side and stored paths agree.
@@ -148,5 +149,44 @@ theorem d8_counterexample :
     pathFromDocument d8Schema 10 d8Top (.single (some d8Doc)) false ["p", "x"] = .ok [.s "urn:v#p", .s "urn:inner#x"] ∧
     storedKey d8Schema 10 d8Top (some d8Doc) ["p", "x"] = .ok [.s "urn:v#p", .s "urn:outer#x"] := by
   constructor <;> decide
+
+/-! ### the path value a caller assembles (Path.Append / Prepend / MtEntry; model M8b) -/
+section PathObject
+open Gsp.PathObj
+
+theorem final_step (h : Hasher) (p : List PathPart) (op : Op) (ops : List Op) :
+    final p (op :: ops) = final (step h p op).1 ops := by
+  cases op <;> rfl
+
+theorem run_append (h : Hasher) (p : List PathPart) (a b : List Op) :
+    run h p (a ++ b) = run h p a ++ run h (final p a) b := by
+  induction a generalizing p with
+  | nil => rfl
+  | cons op a ih => simp only [List.cons_append, run, ih, final_step h]
+
+/-- **the key a path hands out is the key of the parts it has at that moment**, whatever was appended, prepended or
+    observed before - in particular an earlier observation of the key has no influence on a later one -/
+theorem key_is_key_of_current_parts (h : Hasher) (p : List PathPart) (pre : List Op) :
+    run h p (pre ++ [.key]) = run h p pre ++ [.key (Mz.keyHash h (final p pre))] := by
+  rw [run_append]; rfl
+
+/-- observations do not change the path -/
+theorem observations_are_pure (p : List PathPart) (ops : List Op) : final p ops = final p (writes ops) := by
+  induction ops generalizing p with
+  | nil => rfl
+  | cons op ops ih => cases op <;> simp only [final, writes, ih]
+
+/-- a path assembled in pieces - from whichever end, in whichever order of the two ends - is the path of its parts:
+    prepending `a` and appending `c` to `b` gives `a ++ b ++ c` either way round -/
+theorem assembled_either_way (a b c : List PathPart) :
+    final b [.prepend a, .append c] = a ++ b ++ c ∧ final b [.append c, .prepend a] = a ++ b ++ c := by
+  simp [final, List.append_assoc]
+
+/-- so the key after assembling is the key under which a field with these parts is stored (`Mz.keyHash` is the function
+    the merklizer applies to an entry's key) -/
+theorem assembled_key (h : Hasher) (a b c : List PathPart) :
+    (run h b [.prepend a, .key, .append c, .key]).getLast? = some (.key (Mz.keyHash h (a ++ b ++ c))) := by
+  simp [run, step, List.append_assoc]
+end PathObject
 
 end Gsp.Props.C11
